@@ -384,6 +384,26 @@ fn judge_image(out: &mut CaseOut, base: &Base, image: &Image, damaged: &PathBuf,
             }
         }
     }
+    // backward scan: same oracle (entries returned in descending order)
+    match sess.scan_back(None) {
+        Err(_) => any_read_error = true,
+        Ok(entries) => {
+            let scanned: Map = entries.iter().cloned().collect();
+            if wal_damage {
+                if !is_subset_state(base, &scanned) {
+                    out.violate(format!("C15/wal-damage/backward-scan-is-not-tables-plus-whole-batches/{structure}"), json!({"ctx": ctx}));
+                }
+            } else if scanned != base.truth {
+                let omitted: Vec<String> = base.truth.keys().filter(|k| !scanned.contains_key(*k)).take(5).map(|k| show(k)).collect();
+                let wrong: Vec<String> = scanned.iter().filter(|(k, v)| base.truth.get(*k) != Some(*v)).take(5).map(|(k, _)| show(k)).collect();
+                let kind = if wrong.is_empty() { "omits-keys" } else { "stale-or-resurrected-entries" };
+                out.violate(
+                    format!("C15/wrong-data-served/backward-scan/{kind}/{sig_loc}"),
+                    json!({"ctx": ctx, "scan_returned": scanned.len(), "true_entries": base.truth.len(), "omitted": omitted, "stale_or_resurrected": wrong}),
+                );
+            }
+        }
+    }
     let outcome = if any_read_error {
         "read-error"
     } else if wal_damage && state != base.truth {
